@@ -26,6 +26,13 @@ def jobs(tier):
             for L in (0, 1, 2):
                 J.append(dict(harness=('tableau', 'h_measure'), params=dict(N=N, r=r, L=L, goals='born'), timeout_s=300,
                               cost=10 * N * L))
+    for N in (1, 2):
+        for r in range(N + 1):
+            for ro in range(N):
+                if N == 2 and tier == 'quick' and ro == 0 and r == 0:
+                    pass
+                J.append(dict(harness=('tableau', 'h_measure'), params=dict(N=N, r=r, L=N - ro, goals='born', obs_state_rank=ro, repeat=(N == 1 or ro == 1)), timeout_s=600,
+                              cost=40 * N, label='h_measure[N=%d,r=%d,observables=active stabilizers of a rank-%d state]' % (N, r, ro)))
     if tier == 'thorough':
         for fix in itertools.product((0, 1), repeat=6):
             for r in range(4):
